@@ -423,6 +423,28 @@ def fresh_rules(name):
 trend_candles = gens.trend_candles
 
 
+class UltraCase(c06.SCase):
+    """implementation only: no panic at any step, and every signal is what the documented rule yields from the values"""
+    def oracle(self, io):
+        p, steps, pa = ind.steps_of(io, len(self.sets))
+        if p.panic_in_set or p.init != 0:
+            return None
+        if pa is not None:
+            return ["next panicked at step %d of a %d-bar stream (a counter or position kept in a narrow integer?)" % (pa, len(self.cs))]
+        return super().oracle(io)
+
+
+class UltraPsar(c05.PsarCase):
+    def __init__(self, t, sets, c0, cs, kind, meta=None):
+        super().__init__(t, sets, c0, cs, kind, meta, with_spec=False)
+
+    def oracle(self, io):
+        p, steps, pa = ind.steps_of(io, len(self.sets))
+        if pa is not None and not p.panic_in_set and p.init == 0:
+            return ["next panicked at step %d of a %d-bar stream (a counter or position kept in a narrow integer?)" % (pa, len(self.cs))]
+        return super().oracle(io)
+
+
 def run(ctx):
     try:
         tabs = {t["config"]: t for t in ind.tables()}
@@ -518,7 +540,19 @@ def run(ctx):
             for sets in ([("af_step", "0.0005"), ("af_max", "0.2")], [("af_step", "0.001"), ("af_max", "0.5")]):
                 tcases.append(cls(t, sets, cs[0], cs[1:], "long-trend-slow", {"regime": "monotone-legs"}, with_spec=False))
     ctx.run_suite("long-trends", tcases, im.HEADER, per_shard=2, theorem="Properties/C07.v")
-    ctx.extra["soak_steps"] = {"model_fast": fast_steps, "model_fma": slow_steps, "implementation_only": long_steps}
+    # one trend that lasts longer than any 16-bit counter (70000 bars on one side), then a reversal: the indicators that keep
+    # integer counters / trend lengths (debug build: an overflowing counter panics; signals recomputed by the C06 rule oracle)
+    ucases = []
+    ulen = 70000
+    ucs = trend_candles(ctx.rng.fork("c07-ultra"), [(ulen, 0.00004), (600, -0.003), (400, 0.004)])
+    for name, setss in (("WoodiesCCI", [[], [("s1_lag", "3")]]), ("Aroon", [[], [("period", "5"), ("over_zone_period", "200")]]),
+                        ("AwesomeOscillator", [[]]), ("ParabolicSAR", [[]]), ("CommodityChannelIndex", [[]])):
+        for sets in setss:
+            cls = UltraPsar if name == "ParabolicSAR" else UltraCase
+            ucases.append(cls(tabs[name], sets, ucs[0], ucs[1:], "ultra-long-trend", {"regime": "one-sided-70000"}))
+    ctx.run_suite("ultra-long-trends", ucases, im.HEADER, model=False, theorem="Properties/C07.v")
+    ctx.extra["soak_steps"] = {"model_fast": fast_steps, "model_fma": slow_steps, "implementation_only": long_steps,
+                               "one_sided_trend": ulen}
 
 
 def replay(ctx, path):
